@@ -85,5 +85,33 @@ macro_rules! h_argsort_set {
         }
     };
 }
-h_argsort_set!(c04_argsort_n8_partition, 8, 12);
-h_argsort_set!(c04_argsort_n9_partition, 9, 12);
+// (the fully symbolic instances at n = 8 / 9 do not finish symbolic execution within 20 min: not admitted)
+
+// n = 9, the partitioning path: CONCRETE vectors (sorted, reversed, constant, ties), optionally with ONE element replaced
+// by a symbolic value of the set {0.0, 1.0, 2.0} at a fixed position.
+macro_rules! h_argsort_fixed {
+    ($name:ident, $vals:expr, $sympos:expr, $unw:expr) => {
+        #[kani::proof]
+        #[kani::unwind($unw)]
+        fn $name() {
+            const N: usize = 9;
+            let mut before: [f64; N] = $vals;
+            let sympos: Option<usize> = $sympos;
+            if let Some(p) = sympos {
+                before[p] = pick3();
+            }
+            let mut v: Vec<f64> = Vec::with_capacity(N);
+            for i in 0..N {
+                v.push(before[i]);
+            }
+            let idx = v.quick_argsort_mut();
+            argsort_checks!(before, v, idx, N);
+            kani::cover!(v[0] <= v[N - 1]);
+        }
+    };
+}
+h_argsort_fixed!(c04_argsort_n9_fixed_ties, [1.0, 0.0, 2.0, 1.0, 1.0, 0.0, 2.0, 2.0, 0.0], None, 11);
+h_argsort_fixed!(c04_argsort_n9_fixed_sorted, [0.0, 0.0, 0.5, 1.0, 1.0, 1.5, 2.0, 2.0, 3.0], None, 11);
+h_argsort_fixed!(c04_argsort_n9_fixed_reversed, [3.0, 2.0, 2.0, 1.5, 1.0, 1.0, 0.5, 0.0, 0.0], None, 11);
+h_argsort_fixed!(c04_argsort_n9_fixed_constant, [1.0; 9], None, 11);
+// (with one symbolic element, `Some(4)`, symbolic execution does not finish within 10 min either)
